@@ -21,6 +21,7 @@ import (
 	"runtime/debug"
 	"strings"
 	"sync"
+	"sync/atomic"
 	"unsafe"
 
 	"github.com/bytedance/sonic"
@@ -260,10 +261,10 @@ func tablesMode() {
 	var cases, impl []string
 	seen := map[string]bool{}
 	fixed := [][]entry{
-		{{10, 0}, {20, 0}, {30, 8}},                    // the skip-rule witness
-		{{64, -1}},                                     // PCDATA_UnsafePointSafe over the whole function
-		{{64, -2}},                                     // PCDATA_UnsafePointUnsafe
-		{{7, 0}, {6331, 280}, {6332, 0}, {8389, 280}},  // a real decoder table
+		{{10, 0}, {20, 0}, {30, 8}}, // the skip-rule witness
+		{{64, -1}},                  // PCDATA_UnsafePointSafe over the whole function
+		{{64, -2}},                  // PCDATA_UnsafePointUnsafe
+		{{7, 0}, {6331, 280}, {6332, 0}, {8389, 280}}, // a real decoder table
 		{{12, 0}, {40, 232}, {44, 0}, {96, 232}},
 		{},
 	}
@@ -464,7 +465,10 @@ type leaf struct {
 
 type callbackM struct{ X int }
 
-func (c callbackM) MarshalJSON() ([]byte, error) { stress(); return []byte(fmt.Sprintf(`{"X":%d}`, c.X)), nil }
+func (c callbackM) MarshalJSON() ([]byte, error) {
+	stress()
+	return []byte(fmt.Sprintf(`{"X":%d}`, c.X)), nil
+}
 func (c *callbackM) UnmarshalJSON(b []byte) error {
 	stress()
 	var t struct{ X int }
@@ -586,7 +590,22 @@ func jitMode() {
 
 // ------------------------------------------------------------------ GC / stack growth / traceback stress
 
-var sink [][]byte
+// garbage kept alive for a while; guarded by sinkMu (the stress callbacks run on several goroutines)
+var (
+	sink   [][]byte
+	sinkMu sync.Mutex
+)
+
+func keep(n, size int) {
+	sinkMu.Lock()
+	for i := 0; i < n; i++ {
+		sink = append(sink, make([]byte, size))
+	}
+	if len(sink) > 256 {
+		sink = nil
+	}
+	sinkMu.Unlock()
+}
 
 var stressStats struct {
 	sync.Mutex
@@ -624,12 +643,7 @@ func stress() {
 	}
 	_ = debug.Stack()
 	// collect, with fresh garbage around
-	for i := 0; i < 8; i++ {
-		sink = append(sink, make([]byte, 1024))
-	}
-	if len(sink) > 256 {
-		sink = nil
-	}
+	keep(8, 1024)
 	runtime.GC()
 	// move the stack
 	var pad [128]byte
@@ -668,7 +682,7 @@ func gcMode() {
 		fmt.Printf("MISMATCH "+f+"\n", a...)
 		os.Exit(3)
 	}
-	rounds := 0
+	var rounds int64
 	work := func(r *rng.R, iters int) {
 		for i := 0; i < iters; i++ {
 			v := sampleBig(r)
@@ -693,9 +707,7 @@ func gcMode() {
 			}
 			got = nil
 			runtime.GC()
-			for k := 0; k < 4; k++ {
-				sink = append(sink, make([]byte, 4096))
-			}
+			keep(4, 4096)
 			runtime.GC()
 			debug.FreeOSMemory()
 			if err := json.Unmarshal(want, &b); err != nil {
@@ -716,7 +728,7 @@ func gcMode() {
 			if !reflect.DeepEqual(ia, ib) {
 				fail("interface{} value differs after collection")
 			}
-			rounds++
+			atomic.AddInt64(&rounds, 1)
 		}
 	}
 	var wg sync.WaitGroup
@@ -731,7 +743,7 @@ func gcMode() {
 	work(r, *n)
 	wg.Wait()
 	stressStats.Lock()
-	fmt.Printf("OK rounds=%d callbacks=%d frames=%d jit_frames=%d\n", rounds*1, stressStats.gcs, stressStats.frames, stressStats.jitFrames)
+	fmt.Printf("OK rounds=%d callbacks=%d frames=%d jit_frames=%d\n", atomic.LoadInt64(&rounds), stressStats.gcs, stressStats.frames, stressStats.jitFrames)
 	stressStats.Unlock()
 }
 
